@@ -29,7 +29,7 @@ def main():
     assert sh("git -C /repo status --porcelain -- xgi tests").stdout.strip() == "", "/repo not clean"
     # a scratch worktree of /repo's HEAD (so that background runs that use /repo itself are not
     # disturbed); the checks are pointed at it through XGI_SRC
-    scratch = "/tmp/seedcheck_wt"
+    scratch = os.environ.get("SEED_SCRATCH", "/tmp/seedcheck_wt")
     sh(f"git -C /repo worktree remove --force {scratch}")
     sh(f"git -C /repo worktree add --detach {scratch} HEAD")
     # demo without the patch
